@@ -5,7 +5,7 @@ from vlib import Case, hx
 
 HARNESS = "sim_driver"
 LEAN_MODULES = ["ViaProofs.C04"]
-LEMMA_MODULES = ['ViaProofs.ConnLemmas', 'ViaProofs.C13', 'ViaProofs.C08', 'ViaProofs.Roundtrip']
+LEMMA_MODULES = ['ViaProofs.ConnLemmas', 'ViaProofs.C13', 'ViaProofs.C08', 'ViaProofs.Roundtrip', 'ViaProofs.Trans.ENC']
 REQUIRED_THEOREMS = ['Via.C04_head_shape', 'Via.C04_refused', 'Via.C04_framing_added', 'Via.C04_no_framing_when_no_content', 'Via.C04_chunk_wire', 'Via.C04_chunk_header_parses']
 LEVEL = "proof"
 LEVEL_TEXT = ('PROOF of encoder algebra (head shape = C13, framing added iff needed and permitted, chunk wire bytes, chunk header round trip); the property itself (every byte written parses under an independent grammar) is judged on the bytes the REAL server and the REAL http_client hand to the adaptor, plus encoder-level chunk headers for sizes up to 2^63-1. Known finding C04-KF1 (framing headers detected by substring search).')
@@ -112,6 +112,16 @@ def _extra_checks_base(tier, rng, binaries, log):
     for k, n in enumerate(sizes):
         ext = rng.choice([b"", b"", b"x", b"name=val", b"a;b=c"])
         cases.append(Case("c04-enc-%d" % k, ["chunkhdr %d %s" % (n, hx(ext))], {"n": n, "ext": ext}))
+    # the same headers built with the setters: on a default-constructed header, and on one that was used for another
+    # chunk before and clear()ed (size 0 — the last chunk — included)
+    for k, n in enumerate([0, 0, 1, 5, 16, 255, 0x1000, 0] + [rng.below(1 << rng.range(1, 40)) for _ in range(12 if tier == "quick" else 300)]):
+        ext = rng.choice([b"", b"x", b"name=val"])
+        if k % 2:
+            prev = rng.choice([0, 5, n, 1234])
+            line = "chunkhdr-set %d %s %d %s" % (n, hx(ext), prev, hx(rng.choice([b"", b"old=1"])))
+        else:
+            line = "chunkhdr-set %d %s" % (n, hx(ext))
+        cases.append(Case("c04-encset-%d" % k, [line], {"n": n, "ext": ext}))
     impl, _ = vlib.run_parallel(rx, cases, "c04enc", jobs=4)
     model = {}
     import os
